@@ -389,3 +389,98 @@ def c04_r6(ctx):
             continue
         w = [a for a, _ in _self_stores(f) if a == "writer"]
         ctx.ob(f, not w, "does not rebind self.writer (only the constructor decides between direct and buffered mode)")
+
+
+RELEASING = ("self._finish", "self.writelock.release")   # what releases the lock / destroys the shared temporary storage
+
+
+@rule("C04", "R7", "K1", "a finished writer is refused before anything is released a second time; a failed acquire leaves no stale descriptor",
+      min_instances=3, also=("C07", "C18"),
+      clause="In every method of SegmentWriter and its subclasses (other than the helpers themselves) each call of _finish() "
+             "or writelock.release() is dominated by self._check_state() -- in the method itself or, for a private helper, at every "
+             "call site of it -- which raises once the writer is closed: "
+             "commit()/cancel() on a finished writer must not run the release steps again (they destroy the index's shared temporary "
+             "storage and release a lock another writer may hold by now).  In the file-lock classes, once a descriptor was passed to "
+             "os.close() every path to the end of the function re-binds the attribute that held it (a kept number may later denote "
+             "another writer's lock file).")
+def c04_r7(ctx):
+    prog = ctx.prog
+    base = prog.cls("writing.SegmentWriter")
+    n = 0
+    classes = prog.subclasses(base)
+    allm = [f for cls in classes for f in cls.methods.values()]
+
+    def dominated_by_check(f, pred):
+        """for every reachable node of f satisfying pred: is it dominated by a self._check_state() call in f?  -> list of (node, bool)"""
+        g = cfgmod.cfg_of(f)
+        dom = g.dominators()
+        out = []
+        for node in g.nodes:
+            if node.id not in dom or not pred(node):
+                continue
+            checked = any(any(norm.canon(c.func) == "self._check_state" for frag in cfgmod.node_exprs(d) for c in norm.calls_in(frag))
+                          for d in g.nodes if d.id in dom[node.id] and d is not node)
+            out.append((node, checked))
+        return out
+
+    def callers_guard(f, depth=0):
+        """a private helper is fine if every call of it (self.<name>(...) in the writer classes) is itself dominated by the check,
+        or sits in another private helper for which the same holds"""
+        if depth > 4 or not f.name.startswith("_") or f.name.startswith("__"):
+            return False, "%s is an entry point" % f.short
+        sites = []
+        for g_ in allm:
+            if g_ is f:
+                continue
+            calls_f = lambda node, _n=f.name: any(norm.canon(c.func) == "self." + _n for frag in cfgmod.node_exprs(node) for c in norm.calls_in(frag))
+            for node, checked in dominated_by_check(g_, calls_f):
+                sites.append((g_, checked))
+        if not sites:
+            return False, "no caller of %s found" % f.short
+        for g_, checked in sites:
+            if checked:
+                continue
+            ok, why = callers_guard(g_, depth + 1)
+            if not ok:
+                return False, "called from %s without a preceding _check_state() (%s)" % (g_.short, why)
+        return True, ""
+    for cls in classes:
+        for name, f in cls.methods.items():
+            if name in ("_finish", "_close_segment", "__init__", "_check_state"):
+                continue
+            is_rel = lambda node: any(norm.canon(c.func) in RELEASING for frag in cfgmod.node_exprs(node) for c in norm.calls_in(frag))
+            for node, checked in dominated_by_check(f, is_rel):
+                rel = [c for frag in cfgmod.node_exprs(node) for c in norm.calls_in(frag) if norm.canon(c.func) in RELEASING]
+                n += 1
+                ctx.saw(f)
+                why = ""
+                if not checked:
+                    checked, why = callers_guard(f)
+                ctx.ob(f, checked, "%s() runs only after _check_state() has accepted the writer" % norm.canon(rel[0].func),
+                       detail="on a writer that is already finished this releases the lock / destroys the temporary storage a second time; " + why,
+                       loc=ctx.nodeloc(f, rel[0]))
+    if n < 3:
+        raise AnalysisError("only %d release sites found in the segment writers" % n)
+    # file locks: a closed descriptor number is not kept
+    m = 0
+    for cname in ("util.filelock.FcntlLock", "util.filelock.MsvcrtLock"):
+        cls = prog.cls(cname)
+        for name, f in cls.methods.items():
+            g = cfgmod.cfg_of(f)
+            for node in g.nodes:
+                closes = [c for frag in cfgmod.node_exprs(node) for c in norm.calls_in(frag)
+                          if norm.canon(c.func) == "os.close" and c.args and norm.canon(c.args[0]).startswith("self.")]
+                for c in closes:
+                    attr = norm.canon(c.args[0])
+                    m += 1
+                    ctx.saw(f)
+
+                    def rebinds(n_, _a=attr):
+                        a_ = n_.ast
+                        return n_.kind == "stmt" and isinstance(a_, ast.Assign) and any(norm.canon(t) == _a for t in a_.targets)
+                    bad = cfgmod.find_path(g, node, lambda n_: n_ is g.exit, avoid_pred=rebinds) if not rebinds(node) else None
+                    ctx.ob(f, bad is None, "after os.close(%s) every path re-binds %s before the function ends" % (attr, attr),
+                           detail="the closed descriptor's number stays in %s: a later release()/__del__ unlocks and closes whatever file "
+                                  "got that number meanwhile" % attr, path=cfgmod.path_text(bad) if bad else None, loc=ctx.nodeloc(f, c))
+    if m < 2:
+        raise AnalysisError("only %d os.close(self.<fd>) sites found in the file locks" % m)
